@@ -79,6 +79,54 @@ func drawMaxGas(rng *rand.Rand) int64 {
 	return []int64{-1, -1, 40000000, 8000000}[rng.Intn(4)]
 }
 
+// borrowable: sibling checks whose profiles (knobs, clients, schedule hooks) were tuned for reach into one
+// subsystem each; other oracles run over them in a share of their runs.
+var borrowable = []string{"C10", "C11", "C12", "C13", "C14", "C15", "C17", "C19", "C20"}
+
+// drawWorkload draws the history part of a run: the generic swarm (knobs + random subset of all clients,
+// nBlocks blocks) or, in tenths/10 of the runs, the workload of a sibling check (its knobs, clients, block
+// count capped at 50 and per-block hook; its replicas, fault policy and oracle are NOT taken). The caller adds
+// replicas, fault policy and its own hooks.
+func drawWorkload(rng *rand.Rand, tier string, seed uint64, tenths int, nBlocks int) *Setup {
+	if rng.Intn(10) < tenths {
+		from := borrowable[rng.Intn(len(borrowable))]
+		if p, ok := Registry[from].(*ClusterProp); ok {
+			b := p.MakeSetup(rng, tier, seed)
+			su := &Setup{Knobs: b.Knobs, Gens: b.Gens, Blocks: b.Blocks, MaxTx: b.MaxTx, PlanHook: b.PlanHook, Sess: b.Sess, Extra: nil}
+			if su.Sess == nil {
+				su.Sess = gen.NewSession()
+			}
+			if su.Blocks > 50 {
+				su.Blocks = 50
+			}
+			if su.MaxTx == 0 {
+				su.MaxTx = 12
+			}
+			su.Sess.M["borrowed-from"] = from
+			return su
+		}
+	}
+	su := &Setup{Knobs: SwarmKnobs(rng), Sess: gen.NewSession()}
+	su.Gens = allGens(rng)
+	su.Blocks = nBlocks
+	su.MaxTx = 12
+	return su
+}
+
+// chainPlan runs two per-block hooks one after the other (either may be nil).
+func chainPlan(a, b func(e *core.Engine, rng *rand.Rand, st *core.Step, gc *gen.Ctx)) func(e *core.Engine, rng *rand.Rand, st *core.Step, gc *gen.Ctx) {
+	if a == nil {
+		return b
+	}
+	if b == nil {
+		return a
+	}
+	return func(e *core.Engine, rng *rand.Rand, st *core.Step, gc *gen.Ctx) {
+		a(e, rng, st, gc)
+		b(e, rng, st, gc)
+	}
+}
+
 func allGens(rng *rand.Rand) []gen.Generator {
 	all := gen.All()
 	// swarm: each generator enabled with probability 0.7, at least two. The adversarial clients that
@@ -107,9 +155,13 @@ func init() {
 			"Commit hash, EndBlock updates, DeliverTx code/data/gas) must be equal at every block. Non-trivial: >=5 block attempts compared and >=3 successful transactions; " +
 			"distinct = distinct fingerprints (sequence of fault classes + multiset of tx kind/result counts).",
 		MakeSetup: func(rng *rand.Rand, tier string, seed uint64) *Setup {
-			k := SwarmKnobs(rng)
-			k.MaxGas = drawMaxGas(rng)
-			su := &Setup{Knobs: k, Sess: gen.NewSession()}
+			nb := 15 + rng.Intn(30)
+			if tier == "thorough" {
+				nb = 20 + rng.Intn(60)
+			}
+			su := drawWorkload(rng, tier, seed, 3, nb)
+			su.Knobs.MaxGas = drawMaxGas(rng)
+			k := su.Knobs
 			nrep := 3 + rng.Intn(3)
 			if tier == "thorough" {
 				nrep = 3 + rng.Intn(4)
@@ -137,15 +189,9 @@ func init() {
 				}
 				su.Replicas = append(su.Replicas, rc)
 			}
-			su.Gens = allGens(rng)
-			su.Blocks = 15 + rng.Intn(30)
-			if tier == "thorough" {
-				su.Blocks = 20 + rng.Intn(60)
-			}
-			su.MaxTx = 12
 			su.Policy = &NoisePolicy{Rng: rng, Sess: su.Sess, CheckRate: 0.05, CrashRate: 0.004, ReplayCrashRate: 0.01, MaxCrashes: 4}
 			su.Between = RestartAndJoinBetween(0.5, 0.04, nrep+2, k.NumValidators)
-			su.PlanHook = EvidenceHook(0.03, AbsentHook(0.08))
+			su.PlanHook = chainPlan(su.PlanHook, EvidenceHook(0.03, AbsentHook(0.08)))
 			return su
 		},
 		MakeOracle: func(e *core.Engine, tr *core.Trace) Oracle {
